@@ -26,6 +26,8 @@ where
     db: DB,
     cache_db: DB,
     cache: HashMap<K, C>,
+    #[cfg(brc20_verif)]
+    verif_name: String,
 
     _phantom: std::marker::PhantomData<V>,
 }
@@ -55,6 +57,8 @@ where
             db,
             cache_db,
             cache,
+            #[cfg(brc20_verif)]
+            verif_name: name.to_string(),
             _phantom: std::marker::PhantomData,
         })
     }
@@ -185,14 +189,22 @@ where
             let key_bytes = key.encode_vec();
             let cache_bytes = cache.encode_vec();
             if cache.is_old(block_number) {
+                #[cfg(brc20_verif)]
+                crate::verif::persist(&self.verif_name, "hist", "del")?;
                 self.cache_db.delete(&key_bytes)?;
             } else {
+                #[cfg(brc20_verif)]
+                crate::verif::persist(&self.verif_name, "hist", "put")?;
                 self.cache_db.put(&key_bytes, &cache_bytes)?;
             }
 
             if let Some(value) = cache.latest() {
+                #[cfg(brc20_verif)]
+                crate::verif::persist(&self.verif_name, "latest", "put")?;
                 self.db.put(&key_bytes, &value.encode_vec())?;
             } else {
+                #[cfg(brc20_verif)]
+                crate::verif::persist(&self.verif_name, "latest", "del")?;
                 self.db.delete(&key_bytes)?;
             }
         }
